@@ -90,7 +90,7 @@ def _evict(keep):
             pass
 
 
-SAN_CFLAGS = "-fsanitize=address,undefined -fsanitize-recover=address,undefined -fno-omit-frame-pointer -O1 -g"
+SAN_CFLAGS = "-fsanitize=address,undefined -fsanitize-recover=address,undefined -fno-omit-frame-pointer -O1 -g -DNDEBUG"
 
 
 def _build_ext(tree, variant, log):
